@@ -207,3 +207,10 @@ mod tests {
         assert_eq!(DbValueIndex::default().serialized_size(), 16);
     }
 }
+
+// Verification hook (inactive unless built with `--cfg agdb_verif` under Kani).
+#[cfg(all(agdb_verif, kani))]
+#[allow(unused, dead_code, clippy::all)]
+pub(crate) mod verif_h {
+    include!(concat!(env!("AGDB_VERIF_HARNESS"), "/db_value_index_h.rs"));
+}
